@@ -291,6 +291,50 @@ def run(rep, facts, tier):
         for S in SIDES:
             run_side(rep, facts['security'], dict(S, name=S['name'] + '-security'))
 
+    rule_11_7(rep, fx, facts)
+
     # ------------------------------------------------------------ R11.6 crossed roles (shared lint, rdv/swaplint.py)
     from rdv import swaplint
     swaplint.run_rule(rep, facts['default'], 'R11.6', ['rtps::dp_event_loop', 'discovery::discovery_db', 'rtps::reader::Reader::update', 'rtps::writer::Writer::update', 'dds::statusevents'])
+
+
+def rule_11_7(rep, fx, facts):
+    """Which local endpoints hear about a discovered remote endpoint: all of them on the same topic, nobody else."""
+    rep.rule('R11.7', 'topic routing of discovery: remote_writer_discovered offers the remote writer to every element of available_readers (unfiltered iteration) whose topic name equals the '
+                      'announced topic name, with the proxy built from that announcement and its QoS; remote_reader_discovered likewise for every local writer; without security nothing '
+                      'else decides')
+    for nm, coll, upd, tdata, mk in (('remote_writer_discovered', 'available_readers', 'Reader::update_writer_proxy', 'publication_topic_data', 'from_discovered_writer_data'),
+                                     ('remote_reader_discovered', 'writers', 'Writer::update_reader_proxy', 'subscription_topic_data', 'from_discovered_reader_data')):
+        b = fx.find('rtps::dp_event_loop::DPEventLoop::' + nm)
+        rep.analysed(b)
+        og = Origins(b)
+        P = Pos(b)
+        edges = list(switch_edges(b, fx, og))
+        ups = [(bb, t) for bb, t in b.calls() if callee_res(t).endswith(upd)]
+        ok = len(ups) == 1
+        why = '%d update call(s)' % len(ups)
+        if ok:
+            bb, t = ups[0]
+            recv = og.of_operand(t['args'][0], bb, 'term')
+            unfiltered = term_has(recv, lambda x: x[0] == 'call' and x[1].endswith('::next')) and term_has(recv, lambda x: x[0] == 'field' and x[1] == coll) and \
+                not term_has(recv, lambda x: x[0] == 'call' and x[1].rsplit('::', 1)[-1] in ('filter', 'take', 'skip', 'find', 'take_while', 'filter_map', 'range', 'get', 'get_mut'))
+            proxy = og.of_operand(t['args'][1], bb, 'term')
+            qos = og.of_operand(t['args'][2], bb, 'term')
+            from_ann = term_has(proxy, lambda x: x[0] == 'call' and x[1].endswith(mk) and x[2] and x[2][0] == ('param', 2)) and \
+                term_has(qos, lambda x: x[0] == 'call' and x[1].endswith('::qos') and term_has(x, lambda y: y == ('param', 2)))
+            guards = [(s_, t_) for s_, t_, cond, lab in edges if lab is True and cond[0] == 'call' and cond[1].endswith('::eq') and len(cond[2]) == 2 and
+                      any(term_has(a, lambda x: x == ('param', 2)) and ('topic_name' in term_str(a)) for a in cond[2]) and
+                      any(term_has(a, lambda x: x[0] == 'call' and x[1].endswith('::next')) and 'topic_name' in term_str(a) for a in cond[2])]
+            guarded = bool(guards) and P.every_path_passes(None, (bb, 'term'), via_edges=guards, from_entry=True)
+            # from the guard's True edge the update is reached before the next iteration on every path (edges that contradict a literal condition are infeasible)
+            always = True
+            nexts = [(nb, 'term') for nb, nt in b.calls() if callee_res(nt).endswith('::next')]
+            dead = [(s2, t2) for s2, t2, c2, l2 in edges if c2 == ('const', 'int', 1) and l2 is False] + [(s2, t2) for s2, t2, c2, l2 in edges if c2 == ('const', 'int', 0) and l2 is True]
+            if 'security' not in facts or True:
+                for s_, t_ in guards:
+                    for nx in nexts + [(r, 'term') for r in b.return_blocks()]:
+                        if P.can_reach((t_, 0), nx, avoid_pos=[(bb, 'term')], avoid_edges=dead):
+                            always = False
+            ok = unfiltered and from_ann and guarded and always
+            why = 'unfiltered iteration %s, proxy/QoS from the announcement %s, behind topic-name equality %s, nothing else decides %s' % (unfiltered, from_ann, guarded, always)
+        rep.check(ok, 'R11.7', '%s/routing' % nm, why, '%s does not offer the discovered endpoint to exactly the local endpoints on the same topic (%s)' % (nm, why), b.where())
